@@ -324,7 +324,7 @@ def classify(inp):
     return "%s:%s" % (fmt, fam)
 
 
-BUDGET = dict(quick=240, thorough=1000)
+BUDGET = dict(quick=240, thorough=900)
 
 
 def harnesses(tier):
